@@ -31,7 +31,7 @@ CHECKS = {
          "§4 C11"),
  "C16": ("reposim", "exploration", "deterministic simulation; cross-process read-back monitor",
          "Every operation and view any simulated process writes is read back from disk by other processes through fresh stores and must equal the written value field for field (conflicted/absent targets arise from concurrent merges). Only the storage/multi-process part of C16 is claimed; hashing of arbitrary values is a pure function and not decided here.",
-         "Values are those reachable by the generated workload (bookmarks, tags, workspaces, conflicted targets); no remote-bookmark fuzzing yet.",
+         "Values are those the workload generates: local bookmarks/tags, workspaces, conflicted targets from concurrent merges, and a view-fuzz mutation (remote bookmarks and remote tags in both tracking states with normal/absent/conflicted targets, git refs, git heads). Over each run's population the id must be a function of the value and different values must have different ids.",
          "§4 C16"),
  "C17": ("reposim", "exploration", "deterministic simulation; cross-process read-back monitor on simple and Git backends",
          "Every commit written by any process is recorded exactly as write_commit returned it (sub-second and negative timestamps, odd tz offsets, unicode/empty names drawn by the workload) and re-read by every other process that loads a repo containing it through a fresh Store, on the simple backend and (half of the runs) the Git backend whose change ids live in the concurrently written extras table. One genuine defect (author sub-second timestamp) found and repaired.",
@@ -51,7 +51,7 @@ CHECKS = {
          "§4 C46"),
  "C23": ("wcsim", "exploration", "deterministic simulation of the working copy under a simulated coarse file-system clock (hook H3), seeded user-edit / jj-operation histories; oracle: snapshot tree == disk read by the harness",
          "Seeded histories of user edits (write, same-size rewrite, delete, chmod, symlink, file<->directory swap, touch) interleaved with the real TreeState::snapshot / check_out / set_sparse_patterns / reload on tmpfs; after every snapshot the recorded tree must equal what the harness itself reads from disk (content after EOL normalisation, exec bit, symlink target, vanished paths, ignored-but-tracked rule), path by path. The clock advances only when the chooser says so, so clean-by-mtime and must-re-read paths both occur. One genuine defect found and repaired (directory with conflicted content replaced by a file).",
-         "Ignore patterns are limited to anchored literal forms; nested ignore files are not generated; one simulated process.",
+         "Ignore patterns are limited to anchored literal names with or without a trailing slash, in the root ignore file and a nested d/.gitignore that the user rewrites and deletes; the model reads the ignore files from disk as jj does. Tracked files below ignored directories, file->directory and file->fifo swaps at arbitrary paths are generated. One simulated process.",
          "§3.4, §4 C23"),
  "C24": ("wcsim", "exploration", "deterministic simulation of the working copy under a simulated coarse file-system clock (hook H3), seeded user-edit / jj-operation histories; oracle: disk == materialised tree, immediate snapshot identity, switch == fresh checkout",
          "After every check_out of a generated tree (files, executables, symlinks, 3- and 5-term conflicts, file/directory replacement) the disk within the sparse patterns must equal the materialised tree (jj's own pure conflict materialiser as reference), an immediate snapshot in the same or next tick (with and without reloading the state) must return the identical tree ids, and the disk must equal a fresh checkout of the same tree into an empty workspace.",
@@ -63,7 +63,7 @@ CHECKS = {
          "§4 C25"),
  "C26": ("wcsim", "exploration", "deterministic simulation of the working copy under a simulated coarse file-system clock (hook H3), seeded user-edit / jj-operation histories; same-size edits placed in the tick of the state-file save",
          "Same-size in-place rewrites of tracked files are placed after jj saved its state with the file's tick, the state file's tick and the edit's tick forced equal (coarse clock) or ordered; the next snapshot (with or without reload) must record the new content. Catches weakening of the mtime < own_mtime rule (sensitivity/c26_clean_check_le.diff).",
-         "Only placement (a) of the design (after the save) is asserted; edits inside a running jj operation are not simulated.",
+         "Only edits made after the save are asserted (an edit between jj's stat and its save cannot be detected by any timestamp scheme once the clock ticks in between). Clock faults: same tick as the state file, future-dated writes (file mtime later than the state file's) and same-size rewrites that keep the previous mtime when that is not older than the state file's; with and without reloading the tree state between operations.",
          "§4 C26"),
  "C27": ("wcsim", "exploration", "deterministic simulation of the working copy under a simulated coarse file-system clock (hook H3), seeded user-edit / jj-operation histories; sparse-pattern changes interleaved with edits and snapshots",
          "After each set_sparse_patterns the disk gains exactly the tree's files entering the patterns and loses those leaving, the working-copy tree ids stay identical, and later snapshots never change the tree value of a path outside the patterns.",
@@ -71,14 +71,14 @@ CHECKS = {
          "§4 C27"),
  "C06": ("wcsim", "exploration", "deterministic simulation of the working copy under a simulated coarse file-system clock (hook H3), seeded user-edit / jj-operation histories; conflicted files forced to be re-read (same tick / touch)",
          "Trees with 3- and 5-term file conflicts (redundant pairs, absent sides, exec differences) are checked out; with the clock forcing a re-read (same tick as the state file, or a touch) the snapshot must record the identical conflict value, unsimplified arity included (modulo jj's deliberate simplification of the merge of whole trees).",
-         "Edits confined to resolved regions of a conflict file are not generated yet.",
+         "Second clause: the simulated user edits the first line of a materialised conflict file (outside every conflict hunk, same size or not); the expected value is built with jj's pure Merge helpers (simplify / update_from_simplified / with_new_file_ids): the edit lands on every term of the simplified conflict and is written back to the surviving positions. Conflicts with an absent side have no resolved region and are only checked unedited.",
          "§4 C06"),
  "C29": ("wcsim", "exploration", "deterministic simulation of the working copy under a simulated coarse file-system clock (hook H3), seeded user-edit / jj-operation histories; EOL mode swarm",
          "Under none / input / input-output conversion, text with LF, CRLF, missing final newline and binary content (NUL, lone CR) is written by the user and by checkouts; snapshots must store the normalised bytes and checkouts must write CRLF only for text under input-output, byte-identical otherwise (model mirrors eol.rs below the 8 KiB probe).",
-         "Contents stay below the 8 KiB probe boundary.",
+         "Includes contents of 8188-8200 bytes with CRLF, lone CR, NUL, LF or a trailing CR placed around the 8 KiB binary-probe boundary; the model mirrors the documented probe (first 8 KiB, a CR in the last probed byte is not counted).",
          "§4 C29"),
  "C15": ("crashsim", "fault_enumeration", "fault enumeration: real SIGKILL from a ptrace supervisor at the entry of every file-system-mutating syscall (plus torn writes) of the real jj binary, recovery oracle in fresh processes",
-         "For each command of each seeded workload (new, describe, commit, squash, abandon, bookmark set, edit, undo, restore, rebase, workspace add; git, colocated-git and simple backends) the unguarded jj binary is re-executed from a snapshot of the directory and killed at the k-th mutating syscall, for every k (thorough) or for all publication-critical k plus a seeded sample (quick). After each kill fresh processes check: op log loads (R1), no earlier operation lost (R2), head is the old one or one the command publishes (R3), every object reachable from every logged operation loads through jj-lib and git fsck is clean (R4), workspace update-stale + status succeed and every file content on disk before the command is on disk or in a recorded working-copy commit (R5).",
+         "For each command of each seeded workload (new, describe, commit, squash, abandon, bookmark set, edit, undo, restore, rebase, workspace add, duplicate, op restore, util gc, sparse set, split, debug reindex; git, colocated-git and simple backends) the unguarded jj binary is re-executed from a snapshot of the directory and killed at the k-th mutating syscall, for every k (thorough) or for all publication-critical k plus a seeded sample (quick). After each kill fresh processes check: op log loads (R1), no earlier operation lost (R2), head is the old one or one the command publishes (R3), every object reachable from every logged operation loads through jj-lib and git fsck is clean (R4), workspace update-stale + status succeed and every file content on disk before the command is on disk or in a recorded working-copy commit (R5).",
          "Process-kill model only (no power loss / lost page cache). Kill points of one execution are enumerated completely; workloads are sampled by seed. Residual nondeterminism of the tracee can cost replay exactness, never a false alarm (any kill instant is a legal crash).",
          "§3.3, §4 C15"),
  "C07": ("tasksim", "exploration", "deterministic simulation of the tree merger's task scheduler: backend futures completed in seeded order, drawn concurrency limit, injected read errors; compared with the sequential schedule and the path-wise definition",
@@ -102,15 +102,15 @@ CHECKS = {
          "jj git fetch is emulated with git fetch + jj git import (system git 2.39 lacks fetch --porcelain). Operation granularity suffices because the lease expectation comes from the view loaded before the push and the compare-and-swap is git's.",
          "§3.6, §4 C45"),
  "C40": ("clisim", "exploration", "deterministic simulation of command histories through the real jj binary: seeded commands, file edits, commands at older operations, stale workspaces; observation through jj-lib; disk-state bookkeeping per command",
-         "Seeded histories of 8-18 real jj commands (new, describe, commit, squash, abandon, rebase, edit, duplicate, bookmark set/delete, restore, undo/redo, op restore, workspace add/update-stale, --at-op commands that create divergent operations, --ignore-working-copy commands) in one repository with up to two workspaces, interleaved with user edits. For every command that snapshots, every file content on disk when it started must afterwards be on disk or in a working-copy commit of that workspace recorded by some operation in the log (materialized conflict files count as recorded when the path holds the conflict).",
-         "Only small, non-ignored files are generated; split/absorb and other interactive commands are not in the mix; process kills inside a command are C15's subject.",
+         "Seeded histories of 8-18 real jj commands (new [--insert-before/--insert-after], describe, commit, squash [--from/--into], abandon, rebase -r/-s/-b, edit, duplicate, metaedit, parallelize, simplify-parents, split <file>, absorb, file chmod, restore [--from/--into], bookmark set/delete, tag set, undo/redo, op restore, workspace add/update-stale, --at-op commands that create divergent operations, --ignore-working-copy commands) in one repository with up to two workspaces, interleaved with user edits. For every command that snapshots, every file content on disk when it started must afterwards be on disk or in a working-copy commit of that workspace recorded by some operation in the log (materialized conflict files count as recorded when the path holds the conflict).",
+         "Only small, non-ignored files are generated; interactive commands (diffedit, resolve, split -i) are not in the mix; process kills inside a command are C15's subject.",
          "§3.5, §4 C40"),
  "C41": ("clisim", "exploration", "deterministic simulation of command histories through the real jj binary: seeded commands, file edits, commands at older operations, stale workspaces; observation through jj-lib; undo stack judged against the operation DAG",
          "Same histories; after `op restore X` the heads, local bookmarks, tags and working-copy pointers equal those of X's view; after the j-th consecutive undo they equal those of the j-th ancestor of the operation that was the head when the undos began; redo walks back. Undo/redo sequences are kept inside the current run of plain successful commands of the default workspace, where the documented stack is unambiguous. immutable_heads() = none() in these runs, so the permitted difference never arises.",
          "op revert of older operations (a three-way view merge without equality oracle) is not judged; no file edits directly before undo/redo/op restore.",
          "§4 C41"),
  "C42": ("clisim", "exploration", "deterministic simulation of command histories through the real jj binary: seeded commands, file edits, commands at older operations, stale workspaces; observation through jj-lib; immutable set evaluated before, visibility after each rewriting command",
-         "Histories start with protected history (bookmark trunk; revset-aliases.immutable_heads() = present(trunk) | tags()) and aim half of their revision arguments at protected commits. Before each judged command (describe, abandon, rebase, squash --from/--into, edit, new, commit, restore, duplicate) the harness computes the ancestors of trunk/tags through jj-lib; afterwards every one of those commit ids must still be visible. Commands that move the bookmark itself, operation-log commands and --at-op commands are not judged.",
+         "Histories start with protected history (bookmark trunk; revset-aliases.immutable_heads() = present(trunk) | tags()) and aim half of their revision arguments at protected commits. Before each judged command (describe, abandon, rebase -r/-s/-b, squash [--from/--into], edit, new [--insert-before/--insert-after], commit, restore [--from/--into], duplicate, metaedit, parallelize, simplify-parents, split <file>, absorb, file chmod) the harness computes the ancestors of trunk/tags through jj-lib; afterwards every one of those commit ids must still be visible. Commands that move the bookmark or a tag themselves, operation-log commands and --at-op commands are not judged.",
          "Visibility of the same commit id is the criterion (a rewritten commit gets a new id); --ignore-immutable is never passed.",
          "§4 C42"),
  "C21": ("tablesim", "exploration", "deterministic simulation: seeded baton scheduler over the table store's file-system primitives, crash and ineffective-lock faults, key/value reference model",
